@@ -126,6 +126,11 @@ def check_cases(res, cases, tag):
                 continue
             if j == 0:
                 continue
+            if " | rest=" in line:
+                line, _, rest = line.rpartition(" | rest=")
+                # the hypothesis of the proven cc_complete / cc_exact (the model's search came to rest), evaluated for this history
+                res.dist[f"{tag}:hypothesis of cc_complete holds (the cycle search came to rest)" if rest == "1" else
+                         f"{tag}:the model's cycle search did not come to rest within the fuel (cc_complete does not apply)"] += 1
             m, _, s = line.partition(" | ")
             if m != e_model and not done_d:
                 res.diff("EquivalenceDB partition/verified vs Lean model", hist, m, e_model); done_d = True
